@@ -41,6 +41,8 @@ type EnvState struct {
 	udpOut        []SliceV
 	udpOnEmpty    Value
 	udpEmptyReads int
+	jsonVals      map[string]Value
+	httpNext      []Value
 }
 
 func newEnv(in *Interp) *EnvState {
